@@ -48,7 +48,7 @@ for i, e in enumerate(T.EXTRACTORS):
     owner = getattr(ctor, "__self__", None)
     ex = e.extra or {}
     def eds(lst):
-        return [[ed.short_name, ed.reporter.source, ed.reporter.short_name] for ed in lst]
+        return [[ed.short_name, ed.reporter.source, ed.reporter.short_name, str(ed.start)[:10] if ed.start else None, str(ed.end)[:10] if ed.end else None] for ed in lst]
     out["extractors"].append({
         "i": i,
         "regex": e.regex,
@@ -74,6 +74,16 @@ for kind, table in (("laws", reporters_db.LAWS), ("journals", reporters_db.JOURN
             for var in src.get("variations", []):
                 db.append([var, kind, "variation"])
 out["db_strings"] = db
+# reporters-db's own statement of which edition each spelling stands for: [spelling, 'edition'|'variation', edition name, start, end]
+dbmap = []
+for key, cluster in reporters_db.REPORTERS.items():
+    for si, src in enumerate(cluster):
+        for ed, info in src["editions"].items():
+            dbmap.append([ed, "edition", ed, str(info.get("start"))[:10] if info.get("start") else None, str(info.get("end"))[:10] if info.get("end") else None, f"{key}#{si}"])
+        for var, ed in src["variations"].items():
+            info = src["editions"].get(ed, {})
+            dbmap.append([var, "variation", ed, str(info.get("start"))[:10] if info.get("start") else None, str(info.get("end"))[:10] if info.get("end") else None, f"{key}#{si}"])
+out["db_edition_map"] = dbmap
 default = T.default_tokenizer
 out["default_tokenizer_class"] = type(default).__name__
 json.dump(out, sys.stdout)
@@ -99,7 +109,7 @@ def load(root: str | Path) -> Dict[str, Any]:
     root = Path(root).resolve()
     dg = digest(root)
     cache = VERIF / ".cache"
-    cf = cache / f"extractors-{dg}.json"
+    cf = cache / f"extractors3-{dg}.json"
     if cf.exists():
         try:
             return json.loads(cf.read_text())
@@ -120,7 +130,7 @@ def load(root: str | Path) -> Dict[str, Any]:
         cache.mkdir(exist_ok=True)
         cf.write_text(json.dumps(data))
         # keep the cache small
-        files = sorted(cache.glob("extractors-*.json"), key=lambda f: f.stat().st_mtime)
+        files = sorted(cache.glob("extractors*.json"), key=lambda f: f.stat().st_mtime)
         for f in files[:-40]:
             f.unlink()
     except OSError:
